@@ -468,9 +468,20 @@ impl<'input, 'ast> SpannedEventReceiver<'input> for Loader<'ast> {
                 self.push_node(Node::Scalar(self.anchor_map.var(id)), None);
             }
             Scalar(value, style, anchor_id, tag) => {
-                if let Some(key_slot) = self.key_slot() {
+                if self.key_slot().is_some() {
+                    // An anchor on a mapping key stands for the key's string: it must be
+                    // registered, or a later alias of this anchor isn't bound to anything.
+                    if let Some(aid) = NonZeroUsize::new(anchor_id) {
+                        let key_as_value = Ast {
+                            node: self.alloc.string(value.as_ref()),
+                            pos,
+                        };
+                        let _ = self.anchor_map.anchorify(Some(aid), key_as_value);
+                    }
+
                     let key = LocIdent::from(value.as_ref()).with_pos(pos);
-                    *key_slot = Some(key);
+                    // unwrap(): we've just checked that there is a key slot
+                    *self.key_slot().unwrap() = Some(key);
                 } else {
                     let aid = NonZeroUsize::new(anchor_id);
                     self.push_scalar(&value, style, aid, tag.as_ref(), pos);
